@@ -39,6 +39,12 @@ def borrower_lists():
     for x in one:
         for y in one:
             yield [x, y]
+    # a borrower whose reader fails with the package's plain error type, alone and in front of every other borrower
+    for texts in (False, True):
+        bad = {'texts': texts, 'ans': {'A': 'plainerror', 'B': 'plainerror'}}
+        yield [bad]
+        for y in one:
+            yield [bad, y]
 
 
 class BorrowerLists(object):
@@ -55,7 +61,7 @@ class BorrowerLists(object):
                 for c in range(7)]
 
     def cases(self, block, tier):
-        for bl in list(borrower_lists())[block['chunk'] * 49:(block['chunk'] + 1) * 49]:
+        for bl in list(borrower_lists())[block['chunk'] * 55:(block['chunk'] + 1) * 55]:
             for req in (['A'], ['A', 'B'], ['B']):
                 for nd, gt, ie in itertools.product([False, True], repeat=3):
                     w = {'n': 2, 'edges': [['A', 'B']], 'req': req, 'used': 0, 'borrowers': bl}
